@@ -3,7 +3,7 @@
    constraints).  Together with kfd_sound: the LP for k is feasible  <=>  such a decomposition exists. *)
 From Coq Require Import List NArith ZArith QArith Lqa Bool Arith Lia Permutation.
 Import ListNotations.
-From FP Require Import Lin Blocks BlocksProofs PathEnc Euler EulerProofs1 EulerProofs2 DagDecode PathEncProofs.
+From FP Require Import Lin Blocks BlocksProofs PathEnc Aug AugProofs Euler EulerProofs1 EulerProofs2 DagDecode PathEncProofs.
 Set Default Timeout 60.
 Local Close Scope Q_scope.
 
@@ -195,3 +195,74 @@ Section Complete.
           rewrite <- (Hflow e He Hig). apply sumq_ext. intros i Hi. rewrite asg_pi. unfold on. destruct e; reflexivity.
   Qed.
 End Complete.
+
+(* ---- feasibility of the k-model  <=>  existence of a decomposition into k paths ---- *)
+Definition decomposition (I : kfd_inst) (P : N -> list node) (w : N -> Q) : Prop :=
+  let G := p_graph (f_base I) in let k := p_k (f_base I) in
+  (forall i, In i (layers k) ->
+     hd_error (P i) = Some (g_src G) /\ last (P i) (g_src G) = g_snk G /\ NoDup (P i) /\ incl (pairs (P i)) (g_edges G)) /\
+  (forall i, In i (layers k) -> (0 <= w i <= f_wmax I)%Q /\ (f_int I = true -> is_int (w i))) /\
+  (forall e, In e (g_edges G) -> mem_edge e (f_ignore I) = false ->
+     (sumq (fun i => w i * indq (mem_edge e (pairs (P i)))) (layers k) == lookup_q e (f_flow I) 0)%Q).
+
+Theorem kfd_feasible_iff (I : kfd_inst) (rank : node -> nat) (Rm : nat) :
+  wf_graph (p_graph (f_base I)) -> p_cons (f_base I) = [] -> p_allow_empty (f_base I) = false ->
+  (forall u v, In (u, v) (g_edges (p_graph (f_base I))) -> (rank u < rank v)%nat) -> (forall v, (rank v <= Rm)%nat) ->
+  ((exists a, sat a (encode_kfd I)) <-> (exists P w, decomposition I P w)).
+Proof.
+  intros WF Hnc Hae Hrank HR. split.
+  - intros (a & Hsat).
+    destruct (kfd_sound I a rank Rm WF Hae Hrank HR Hsat) as (Hpaths & Hweights & Hflow).
+    exists (fun i => g_src (p_graph (f_base I)) ::
+                     match decode (g_edges (p_graph (f_base I))) (xval a i) (g_snk (p_graph (f_base I))) (Datatypes.S Rm)
+                                  (g_src (p_graph (f_base I))) with Some p => p | None => [] end), (fun i => a (W i)).
+    unfold decomposition. split; [|split].
+    + intros i Hi. destruct (Hpaths i Hi) as (p & D & L & Pm & _).
+      rewrite D. split; [reflexivity|]. split; [rewrite last_cons_default; exact L|].
+      assert (HinG : incl (pairs (g_src (p_graph (f_base I)) :: p)) (g_edges (p_graph (f_base I)))).
+      { intros e He. apply (Permutation_in _ (Permutation_sym Pm)) in He. apply Sup_In in He. tauto. }
+      split; [|exact HinG].
+      destruct (AugProofs.rank_walk_nodup _ rank Hrank p _ HinG) as [ND _]. exact ND.
+    + exact Hweights.
+    + intros e He Hig. rewrite <- (Hflow e He Hig). apply sumq_ext. intros i Hi.
+      destruct (Hpaths i Hi) as (p & D & L & Pm & _). rewrite D.
+      assert (Q : (indq (mem_edge e (pairs (g_src (p_graph (f_base I)) :: p))) == inject_Z (xval a i e))%Q).
+      { destruct (xval_bin a i e (kfd_edge_bin I a Hsat i e Hi He)) as [_ [X|X]]; rewrite X.
+        - destruct (mem_edge e (pairs (g_src (p_graph (f_base I)) :: p))) eqn:M; [|reflexivity]. exfalso.
+          apply mem_edge_In in M. apply (Permutation_in _ (Permutation_sym Pm)) in M. apply Sup_In in M. destruct M as [_ M]. lia.
+        - assert (M : mem_edge e (pairs (g_src (p_graph (f_base I)) :: p)) = true).
+          { apply mem_edge_In. apply (Permutation_in _ Pm). apply Sup_In. split; [exact He|exact X]. }
+          rewrite M. reflexivity. }
+      rewrite Q. reflexivity.
+  - intros (P & w & HP & Hw & Hf). exists (asg P w). apply kfd_complete; assumption.
+Qed.
+
+(* ---- C03 composed: search + exact solver + feasibility characterisation ---- *)
+From FP Require Import Search SearchProofs1 SearchProofs2.
+
+Theorem mfd_returns_minimum (inst : nat -> kfd_inst) (rank : node -> nat) (Rm : nat)
+        (feasible : nat -> bool) (lb ub kopt : nat) (sts : list raw) :
+  (* the instances tried differ only in k, are well formed, acyclic, constraint-free, empty paths not allowed *)
+  (forall k, p_k (f_base (inst k)) = k /\ wf_graph (p_graph (f_base (inst k))) /\ p_cons (f_base (inst k)) = [] /\
+             p_allow_empty (f_base (inst k)) = false /\
+             (forall u v, In (u, v) (g_edges (p_graph (f_base (inst k)))) -> (rank u < rank v)%nat)) ->
+  (forall v, (rank v <= Rm)%nat) ->
+  (* solver specification: the status of the run for k says whether the generated LP is satisfiable *)
+  (forall k, feasible k = true <-> exists a, sat a (encode_kfd (inst k))) ->
+  (forall i, (i < ub - lb)%nat -> exists x, nth_error sts i = Some x /\
+             status_of x = if feasible (lb + i)%nat then Optimal else Infeasible) ->
+  (* kopt is the least number of paths of any decomposition, and it lies in the searched range *)
+  (exists P w, decomposition (inst kopt) P w) ->
+  (forall k, (k < kopt)%nat -> ~ exists P w, decomposition (inst k) P w) ->
+  (lb <= kopt < ub)%nat ->
+  so_res (mpc_solve true lb ub sts) = Solved kopt.
+Proof.
+  intros Hinst HR Hspec Hsts Hopt Hmin Hrange.
+  apply (search_min feasible lb ub kopt sts Hsts).
+  - apply Hspec. destruct (Hinst kopt) as (_ & WF & Hnc & Hae & Hrk).
+    apply (kfd_feasible_iff (inst kopt) rank Rm WF Hnc Hae Hrk HR). exact Hopt.
+  - intros k Hk. destruct (feasible k) eqn:F; [exfalso|reflexivity].
+    apply Hspec in F. destruct (Hinst k) as (_ & WF & Hnc & Hae & Hrk).
+    apply (kfd_feasible_iff (inst k) rank Rm WF Hnc Hae Hrk HR) in F. exact (Hmin k Hk F).
+  - exact Hrange.
+Qed.
